@@ -161,6 +161,16 @@ bool index_read(zckCtx *zck, char *data, size_t size, size_t max_length) {
             zck->index.first = new;
         prev = new;
     }
+    if(length != size) {
+        set_fatal_error(zck, "Index doesn't end where the index size says");
+        return false;
+    }
+    if(count == 0 || (size_t)count != index_count) {
+        set_fatal_error(zck, "Chunk count (%llu) doesn't match the number of "
+                        "index entries (%i)",
+                        (long long unsigned) index_count, count);
+        return false;
+    }
     free(zck->index_string);
     zck->index_string = NULL;
     return true;
